@@ -127,7 +127,12 @@ single("CheckPermutedBitPatterns",
 FWG = "paranoid_crypto/lib/special_case_factoring.py::FactorWithGuess"
 single("CheckUnseededRand", self_fields={"_storage": "ref:Storage"},
        ref_methods={("Storage", "GetUnseededRands"): ("list[int]", ["forall(j, 0, len(result), result[j] >= 1)"])},
-       loops_extra={1: dict(cut=True, invariant=list(_SEARCH_INV), types={"factors": "Optional[list[int]]"},
+       # C04 "a prime within a prime gap of a listed output": the table consulted is the one for the prime size of THIS
+       # modulus, ceil(bits / 2) - two L-bit primes have a product of 2L or 2L - 1 bits - and the top-bit variants set
+       # bits L - 1 and L - 2 of that size
+       loops_extra={0: dict(body_end=[("C04", "psize == idiv(bit_length(g_N) + 1, 2)"),
+                                      ("C04", "msb_1 == pow2(psize - 1) and msb_11 == bor(msb_1, pow2(psize - 2))")]),
+                    1: dict(cut=True, invariant=list(_SEARCH_INV), types={"factors": "Optional[list[int]]"},
                             keep={'g_N'},
                             head=["g_t0 = False", "g_t1 = False", "g_t2 = False"],
                             # C04 search space: unless an earlier guess already factored n, the listed output AND both
